@@ -60,7 +60,8 @@ class BrentsRootFinder:
         delta_cd = abs(self.c - self.d)
         delta_ab = self.a - self.b
         if (
-            (adx >= abs(3 * delta_ab / 4) or dx * delta_ab < 0)
+            adx != adx  # the interpolation overflowed (huge ordinate ratios)
+            or (adx >= abs(3 * delta_ab / 4) or dx * delta_ab < 0)
             or (self.bisection and adx >= delta_bc / 2)
             or (not self.bisection and adx >= delta_cd / 2)
             or (self.bisection and delta_bc < delta)
